@@ -54,6 +54,8 @@ type gnode struct {
 	lastAck     map[string]int64 // entry id -> timestamp of the last CAS acknowledged on this node (since its last restart)
 	// tombstone tracking for C04: id -> true while the raw state holds its tombstone
 	tomb map[string]bool
+	// the same for the partition ring: "p<id>" / owner id -> timestamp of the tombstone held
+	ptomb map[string]int64
 }
 
 type packet struct {
@@ -144,6 +146,7 @@ func (w *gworld) boot(nd *gnode) {
 	nd.alive = true
 	nd.lastAck = map[string]int64{}
 	nd.tomb = map[string]bool{}
+	nd.ptomb = map[string]int64{}
 	nd.watchers = nil
 }
 
